@@ -1140,8 +1140,71 @@ def binder_kind(code, name):
     return "?"
 
 
+_SCOPES = (ast.Lambda, ast.FunctionDef, ast.AsyncFunctionDef, ast.ClassDef)
+_COMPS = (ast.ListComp, ast.SetComp, ast.GeneratorExp, ast.DictComp)
+
+
+def _binds_in_own_scope(node, name, walrus_only, in_comp=False):
+    """is `name` bound by `node` in the scope it belongs to (nested functions are not entered; inside a comprehension
+    only := binds in the enclosing scope)"""
+    if isinstance(node, ast.NamedExpr) and node.target.id == name:
+        return True
+    if isinstance(node, ast.Name) and node.id == name and isinstance(node.ctx, ast.Store) and not walrus_only and not in_comp:
+        return True
+    if isinstance(node, (ast.FunctionDef, ast.AsyncFunctionDef, ast.ClassDef)) and node.name == name and not walrus_only and not in_comp:
+        return True
+    if isinstance(node, _SCOPES):
+        return False
+    inc = in_comp or isinstance(node, _COMPS)
+    return any(_binds_in_own_scope(ch, name, walrus_only, inc) for ch in ast.iter_child_nodes(node))
+
+
+def _binds(owner, name):
+    """does this scope-creating node bind `name` itself?"""
+    if isinstance(owner, (ast.Lambda, ast.FunctionDef, ast.AsyncFunctionDef)):
+        a = owner.args
+        if name in [x.arg for x in a.posonlyargs + a.args + a.kwonlyargs + [y for y in (a.vararg, a.kwarg) if y]]:
+            return True
+        body = owner.body if isinstance(owner.body, list) else [owner.body]
+        return any(_binds_in_own_scope(b, name, isinstance(owner, ast.Lambda)) for b in body)
+    if isinstance(owner, (ast.ListComp, ast.SetComp, ast.GeneratorExp, ast.DictComp)):
+        for g in owner.generators:
+            for n in ast.walk(g.target):
+                if isinstance(n, ast.Name) and n.id == name:
+                    return True
+    return False
+
+
+def inner_binding(code, name):
+    """'<binder kind>-inside-<lambda|def>' when `name` is bound in an inner function scope of `code` and also read
+    outside every scope that binds it; else None"""
+    try:
+        tree = ast.parse(code)
+    except SyntaxError:
+        return None
+    par = _parents(tree)
+    free_read = False
+    inner = None
+    for node in ast.walk(tree):
+        if isinstance(node, ast.Name) and node.id == name:
+            owners = []
+            up = par.get(node)
+            while up is not None:
+                owners.append(up[0])
+                up = par.get(up[0])
+            if isinstance(node.ctx, ast.Load) and not any(_binds(o, name) for o in owners):
+                free_read = True
+        if isinstance(node, (ast.Lambda, ast.FunctionDef)) and inner is None:
+            for sub in ast.walk(node):
+                if sub is not node and _binds(sub, name) or (sub is node and _binds(node, name)):
+                    kind = binder_kind(ast.unparse(node) if isinstance(node, ast.FunctionDef) else "(%s)" % ast.unparse(node), name)
+                    inner = "%s-inside-%s" % (kind, "lambda" if isinstance(node, ast.Lambda) else "def")
+                    break
+    return inner if (free_read and inner) else None
+
+
 def read_location(code, name):
-    """where `name` is read in `code`: the syntactic slot of its first Load"""
+    """where `name` is read in `code`: the syntactic slot of its first Load that no enclosing scope binds"""
     try:
         tree = ast.parse(code)
     except SyntaxError:
@@ -1151,9 +1214,13 @@ def read_location(code, name):
         if isinstance(node, ast.Name) and node.id == name and isinstance(node.ctx, ast.Load):
             chain = []
             up = par.get(node)
+            bound_here = False
             while up is not None:
                 chain.append((type(up[0]).__name__, up[1]))
+                bound_here = bound_here or _binds(up[0], name)
                 up = par.get(up[0])
+            if bound_here:
+                continue
             infn = any(t in ("Lambda", "FunctionDef") and f == "body" for t, f in chain)
             for t, f in chain:
                 if t == "arguments" and f in ("defaults", "kw_defaults"):
@@ -1187,6 +1254,10 @@ def c_feature(c, sym, detail):
     if sym == "demanded-from-context" and nme:
         return binder_kind(code, nme)
     if sym == "free-name-not-obtained" and nme:
+        ib = inner_binding(code, nme)
+        if ib:
+            # the name is private to an inner function scope somewhere else in the same code and free here
+            return "name-also-bound-as-%s" % ib
         return "read-in-" + read_location(code, nme)
     if sym == "name-bound-in-inner-scope-not-obtained" and nme:
         return "outside-read-of-" + binder_kind(code, nme)
